@@ -275,18 +275,15 @@ theorem acked_pipe_definition_survives_crash (K : Codecs) (hK : K.Laws) (parseOk
 (for a pipe whose position file is not the registry file — F33's class: there the removal of the position file removes
 the registry). -/
 theorem deleted_pipe_stays_deleted_after_crash (K : Codecs) (hK : K.Laws) (parseOk : TagLine → Bool) (s : Srv) (n : Bytes)
-    (hnc : pipeInfoPath n ≠ pipesDat) (s' : Srv) (hr : recover K parseOk (step K s (.deletePipe n)).disk = .started s') :
+    (_hnc : pipeInfoPath n ≠ pipesDat) (s' : Srv) (hr : recover K parseOk (step K s (.deletePipe n)).disk = .started s') :
     s'.mem.pipes.map (·.cfg) = (s.mem.pipes.filter (fun p => !(p.cfg.name == n))).map (·.cfg) ∧
     ∀ q ∈ s'.mem.pipes, q.cfg.name ≠ n := by
   have hf : pipeDefsSavedOnDelete = true := by decide
   have h1 : s'.mem.pipes.map (·.cfg) = (s.mem.pipes.filter (fun p => !(p.cfg.name == n))).map (·.cfg) := by
     apply recover_pipes K hK parseOk _ _ _ s' hr
-    have hsp := savePipes_at K.pipes ((s.mem.pipes.filter (fun p => !(p.cfg.name == n))).map (·.cfg)) s.disk.files pipesDat
-    rw [if_pos rfl] at hsp
-    simp only [runSteps] at hsp
-    simp only [step, hf, if_true, runSteps, List.foldl_append, List.foldl_cons, List.foldl_nil, applyStep]
-    rw [Files.set_other _ _ _ _ (Ne.symm hnc)]
-    exact hsp
+    have hf2 : deletePipeRemovesPositionsBeforeSave = true := by decide
+    simp only [step, hf, hf2, if_true, runSteps_cons]
+    rw [savePipes_at, if_pos rfl]
   refine ⟨h1, ?_⟩
   intro q hq hqn
   have : q.cfg ∈ s'.mem.pipes.map (·.cfg) := List.mem_map_of_mem hq
@@ -673,12 +670,13 @@ theorem stale_snapshot_write_first (m : CMap) (src : Src) (cid : Nat) (before ba
     let ck : Chunk := ⟨cid, before ++ batch⟩
     rangeVisible (hullView m' src [ck]) [ck] lo hi = rangeSpec [ck] lo hi := by
   have f1 : onWriteStaleSnapshotEntryIsNewChk = true := by decide
+  have f1b : onWriteChecksStalenessBeforeRecsBump = true := by decide
   have f2 : onWriteNewChunkMidwayRebuilds = true := by decide
   have f3 : syncChunksDropsStaleEntries = true := by decide
   have hne : before.isEmpty = false := by cases before <;> simp_all
   let e : ChkInfo := rebuildHull (before ++ batch) { last.update mn mx with recs := before.length + batch.length }
   have hm' : alookup (cindexOnWriteR m src cid before batch mn mx) src = some [e] := by
-    simp only [cindexOnWriteR, onWriteNewChk, hm, f1, f2, hne, cindexOnWrite, alookup_aset_self, List.getLast?_singleton,
+    simp only [cindexOnWriteR, onWriteNewChk, hm, f1, f1b, f2, hne, cindexOnWrite, alookup_aset_self, List.getLast?_singleton,
       List.dropLast_singleton, List.nil_append, hid, ne_eq, not_true_eq_false, decide_false, Bool.false_or, hstale,
       decide_true, Bool.and_self, Bool.not_false, if_true, if_false, e]
   have hide : e.id = cid := by
@@ -707,7 +705,7 @@ monotone chunk gets a hull that contains every record. (2) If it is a write, the
 RANGE query over it returns exactly the events in range. The facts are regenerated; reverting either commit breaks this. -/
 theorem no_event_hidden_after_recovery_from_stale_snapshot :
     (syncChunksDropsStaleEntries = true ∧ syncChunksDropsStaleBeforeHullCopy = true ∧ dropStaleOnlySnapshotEntries = true ∧
-      onWriteStaleSnapshotEntryIsNewChk = true ∧ syncChunksNeverStoresEmptyList = true) ∧
+      onWriteStaleSnapshotEntryIsNewChk = true ∧ onWriteChecksStalenessBeforeRecsBump = true ∧ syncChunksNeverStoresEmptyList = true) ∧
     (∀ (old : List ChkInfo) (ck : Chunk) (o : ChkInfo), old.find? (fun o => o.id == ck.id) = some o →
       ck.recs.Pairwise (· ≤ ·) → o.recs < ck.recs.length →
       ∀ t ∈ ck.recs, (syncChunk old ck).minTs ≤ t ∧ t ≤ (syncChunk old ck).maxTs) ∧
